@@ -37,7 +37,7 @@ def gen_dump(rng, static_map):
     # that dropping records of a non-requested class cannot change the tables a requested decoder reads
     entries = [(tid, 100 * (i + 1), b'proc%d' % i, b'') for i, tid in enumerate(tids)]
     data = wire.v2_file(entries, 8, gen.events_to_records(events))
-    return {'data': data, 'events': events, 'entries': entries}
+    return {'data': data, 'events': events, 'entries': entries, 'static_map': static_map}
 
 
 def gen_config(rng, dump, with_process):
@@ -45,7 +45,8 @@ def gen_config(rng, dump, with_process):
     classes = rng.choice(([], [], [4], [1], [4, 7], [4, 3], [0x1f], [0x25, 1], [7], [3], [1, 4, 0x1f, 0x25]))
     subs = rng.choice(([], [], [], [0x40c], [0x40c, 0x0301], [0x0301], [0x10c], [0x0701], [0x1f07, 0x40c], [0x140]))
     as_tuple = rng.random() < 0.25
-    proc = rng.choice((None, 'proc0', 'proc1', '100', '200', 'nosuch', 'proc', 'roc1', '10', '')) if with_process else None
+    proc = rng.choice((None, None, 'proc0', 'proc1', '100', '200', '101', 'nosuch', 'proc', 'roc1', '10', '', 'launchd',
+                       'Safari', 'kernel_task', '/usr/lib/dyld')) if with_process else None
     return {'tid': tid, 'classes': tuple(classes) if as_tuple else list(classes),
             'subs': tuple(subs) if as_tuple else list(subs), 'process': proc}
 
@@ -62,24 +63,41 @@ def new_front(cfg):
 
 
 def key(t):
-    return (t.ktraces[0].timestamp, t.ktraces[0].eventid, str(t))
+    return (t.ktraces[0].timestamp, t.ktraces[0].eventid, str(t), t.ktraces[-1].timestamp)
 
 
 def user_filter(dump, cfg):
-    tp, pn = wire.threadmap_model(dump['entries'])
+    """Returns f(key) -> True / False / None (None = either answer accepted: the trace's trigger record is itself a
+    map-updating record, so the inclusive and the exclusive reading of 'at that point of the stream' both hold)."""
+    from props import c14
+    tp0, pn0 = wire.threadmap_model(dump['entries'])
+    if 'table_states' not in dump:
+        dump['table_states'] = c14.table_states(dump)
+        dump['index'] = {e.timestamp: i for i, e in enumerate(dump['events'])}
+        dump['by_ts'] = {e.timestamp: e for e in dump['events']}
+
+    def matches(tp, pn, tid):
+        pid = tp.get(tid, -1)
+        return cfg['process'] == str(pid) or cfg['process'] == pn.get(pid, '')
 
     def ok(k):
-        ts, eid, _ = k
-        e = next(x for x in dump['events'] if x.timestamp == ts)
+        ts, eid, _, trigger_ts = k
+        e = dump['by_ts'][ts]
         if cfg['tid'] is not None and e.tid != cfg['tid']:
             return False
         if cfg['classes'] or cfg['subs']:
             if (eid >> 24) & 0xff not in cfg['classes'] and (eid >> 16) & 0xffff not in cfg['subs']:
                 return False
         if cfg['process'] is not None:
-            pid = tp.get(e.tid, -1)
-            if cfg['process'] != str(pid) and cfg['process'] != pn.get(pid, ''):
-                return False
+            if dump.get('static_map'):
+                return matches(tp0, pn0, e.tid)
+            states, updating = dump['table_states']
+            i = dump['index'][trigger_ts]
+            after = matches(*states[i], e.tid)
+            before = matches(*(states[i - 1] if i else (tp0, pn0)), e.tid)
+            if updating[i] and after != before:
+                return None
+            return after
         return True
     return ok
 
@@ -94,7 +112,10 @@ def check(res, rng, dump, cfg, unfiltered, other_dump):
             'tuple': isinstance(cfg['classes'], tuple)}
     p = new_front(cfg)
     before = settings(p)
-    want = [k for k in unfiltered if user_filter(dump, cfg)(k)]
+    verdict = user_filter(dump, cfg)
+    verdicts = {k: verdict(k) for k in unfiltered}
+    want = [k for k in unfiltered if verdicts[k]]
+    optional = {k for k in unfiltered if verdicts[k] is None}
     requests = [rng.choice(('traces', 'traces', 'formatted_traces', 'callstacks')) for _ in range(rng.randrange(2, 5))]
     requests[0] = 'traces'
     first_formatted = None
@@ -114,6 +135,10 @@ def check(res, rng, dump, cfg, unfiltered, other_dump):
         try:
             if req == 'traces':
                 got = [key(t) for t in p.traces(io.BytesIO(src['data']))]
+                if optional:
+                    # traces for which either answer is accepted are judged as the tool judged them
+                    gs = set(got)
+                    want = [k for k in unfiltered if verdicts[k] or (verdicts[k] is None and k in gs)]
                 if got != want:
                     extra = [g for g in got if g not in want][:2]
                     missing = [w for w in want if w not in got][:2]
@@ -125,6 +150,9 @@ def check(res, rng, dump, cfg, unfiltered, other_dump):
                 res.count('trace_requests_compared')
             elif req == 'formatted_traces':
                 lines = list(p.formatted_traces(io.BytesIO(src['data'])))
+                if optional and len(lines) != len(want):
+                    res.count('formatted_requests_with_optional_traces_skipped')
+                    continue
                 if len(lines) != len(want) or any(not l.endswith(w[2]) for l, w in zip(lines, want)):
                     res.violation('c13-formatted-differs' + ('-on-repeat' if i > 0 else ''),
                                   f'{label}, request {i + 1} ({req}): {len(lines)} lines for {len(want)} expected traces',
@@ -178,15 +206,18 @@ def run(ctx):
             # two traces triggered by one START are impossible; first-event timestamps identify traces
             pass
         for _ in range(6):
-            cfg = gen_config(rng, dump, with_process=static_map)
+            cfg = gen_config(rng, dump, with_process=True)
+            if not static_map and cfg['process'] is not None:
+                cfg['tid'] = None      # the table model replays the whole stream; with a tid filter other threads'
+                res.count('process_filters_on_dumps_with_map_updates')   # map updates would not be consumed
             check(res, rng, dump, cfg, unfiltered, prev)
         prev = dump
     if ctx.shard == 0:
         res.sample({'configuration': {'classes': [4], 'subclasses': ['0x301']},
                     'expected': 'BSD traces and lookup traces (requested by subclass); kernel trace-string traces consumed '
                                 'but not reported', 'history': ['traces', 'formatted_traces', 'traces']})
-    res.assumptions += ['process filters are exercised on dumps whose thread->process map is static (thread map only); '
-                        'C14 covers map-updating records', 'strings/lookups consumed by a decoder are emitted by the same '
+    res.assumptions += ['process filters on dumps with map-updating records are judged with C14\'s table model (state at the '
+                        'trace\'s trigger event; either answer accepted when the trigger itself updates the tables)', 'strings/lookups consumed by a decoder are emitted by the same '
                         'thread (tid-filtered comparisons keep cross-thread context out, as in C05)',
                         'records of non-requested classes that update the shared tables (sampler thread data) carry the '
                         'pid the thread map already declares',
@@ -196,6 +227,7 @@ def run(ctx):
     res.require('configurations_showing_a_helper_class_on_request', 3)
     res.require('configurations_hiding_helper_traces', 10)
     res.require('formatted_requests_compared', 10)
+    res.require('process_filters_on_dumps_with_map_updates', 10)
     return res
 
 
